@@ -356,7 +356,10 @@ def check_cost(case: typing.Any, ctx: Ctx) -> Info:
 
 def _templates() -> st.SearchStrategy:
     counter = {"n": 0}
-    prim = st.one_of(gt.primitive(), st.sampled_from([["uint", 8, "sat"], ["uint", 1, "sat"], ["bool"], ["uint", 3, "trunc"], ["float", 16, "sat"], ["int", 64]]))
+    # (the standard widths in good supply: element lengths that are multiples of 16 / 24 / 32 / 40 / 64 bits are what makes residue sets
+    # modulo 32 and 64 interesting - {8, 40}, {16, 48}, cosets that an iteration over the capacity cycles through without settling)
+    prim = st.one_of(gt.primitive(), st.sampled_from([["uint", 8, "sat"], ["uint", 1, "sat"], ["bool"], ["uint", 3, "trunc"], ["float", 16, "sat"], ["int", 64]]),
+                     st.sampled_from([["uint", 32, "sat"], ["float", 32, "sat"], ["int", 32], ["uint", 16, "sat"], ["uint", 24, "sat"], ["uint", 40, "sat"], ["uint", 64, "sat"], ["float", 64, "sat"], ["uint", 48, "trunc"]]))
     slot = st.integers(0, 3).map(lambda i: ["slot", i])
     small_cap = st.integers(1, 3)
     cap = st.one_of(slot, slot, small_cap)
@@ -388,7 +391,13 @@ def _templates() -> st.SearchStrategy:
     # a variable-length array (capacity slot) of composites that themselves hold a variable-length array: the shape whose naive
     # analysis is quadratic-or-worse in the capacities and the one the non-triviality rule asks for
     nested1 = st.tuples(level1, var_leaf, st.integers(0, 4), st.one_of(slot, slot, slot, small_cap)).map(lambda t: ["var", force_var(t[0], t[1], t[2]), t[3]])
-    level2 = composite(st.one_of(level0, level1, arrays(level1)))
+    # a fixed-length array (capacity slot) of sealed structures whose only variable part is an array of a standard width: the element's
+    # residues modulo 64 are a coset pair like {8, 40} or {24, 56} - summing them up one copy at a time cycles with a period of 4 and more
+    wide = st.sampled_from([["uint", 32, "sat"], ["float", 32, "sat"], ["int", 32], ["uint", 16, "sat"], ["uint", 24, "sat"], ["uint", 40, "sat"], ["uint", 64, "sat"]])
+    cyclic = st.tuples(wide, small_cap, st.lists(st.sampled_from([["uint", 16, "sat"], ["uint", 32, "sat"], ["uint", 8, "sat"], ["uint", 64, "sat"]]), max_size=2), slot).map(
+        lambda t: ["fixed", ["struct", [["v", ["var", t[0], t[1]]]] + [["x%d" % i, x] for i, x in enumerate(t[2])]], t[3]]
+    )
+    level2 = composite(st.one_of(level0, level1, arrays(level1), cyclic))
     level2n = composite(st.one_of(level0, nested1, nested1))
     nested2 = st.tuples(level2n, var_leaf, st.integers(0, 4), st.one_of(slot, small_cap)).map(lambda t: ["var", force_var(t[0], t[1], t[2]), t[3]])
     level3 = composite(st.one_of(level0, level1, level2, arrays(level2), arrays(level1)))
